@@ -739,6 +739,22 @@ class Hugr(Mapping[Node, NodeData], Generic[OpVarCov]):
         has_static_input = isinstance(op, Call | LoadConst | LoadFunc)
         return len(sig.input) + int(has_static_input)
 
+    def _deserialize_offset(
+        self, node: Node, offset: PortOffset | None, direction: Direction
+    ) -> PortOffset:
+        """Inverse of :meth:`_constrain_offset`: the state order port of a
+        dataflow node, serialized as the first port after its value and static
+        ports or without an offset, is the port with offset -1.
+        """
+        order_offset = self._order_port_offset(node, direction)
+        if offset is None:
+            # a non-dataflow port: the order port of a dataflow operation,
+            # otherwise the first (control flow) port
+            return -1 if order_offset is not None else 0
+        if order_offset is not None and offset >= order_offset:
+            return -1
+        return offset
+
     def resolve_extensions(self, registry: ext.ExtensionRegistry) -> Hugr:
         """Resolve extension types and operations in the HUGR by matching them to
         extensions in the registry.
@@ -781,11 +797,11 @@ class Hugr(Mapping[Node, NodeData], Generic[OpVarCov]):
             assert n.idx == idx, "Nodes should be added contiguously"
 
         for (src_node, src_offset), (dst_node, dst_offset) in serial.edges:
-            if src_offset is None or dst_offset is None:
-                continue
+            src = Node(src_node, _metadata=get_meta(src_node))
+            dst = Node(dst_node, _metadata=get_meta(dst_node))
             hugr.add_link(
-                Node(src_node, _metadata=get_meta(src_node)).out(src_offset),
-                Node(dst_node, _metadata=get_meta(dst_node)).inp(dst_offset),
+                src.out(hugr._deserialize_offset(src, src_offset, Direction.OUTGOING)),
+                dst.inp(hugr._deserialize_offset(dst, dst_offset, Direction.INCOMING)),
             )
 
         return hugr
